@@ -40,12 +40,28 @@ theorem nomatch_classify {cfg : Cfg α} {m : In α} (h : isMatch cfg m = false) 
   · simp [h]
   · split <;> (try split) <;> simp
 
+@[simp] theorem onCancel_ne_returned (cfg : Cfg α) (t ws cbs n) (p : α) :
+    ((onCancel cfg t ws cbs n).outcome = .returned p) = False := by
+  simp only [onCancel]; split <;> simp
+
+@[simp] theorem onCancel_ne_raised (cfg : Cfg α) (t ws cbs n) (r c s) :
+    ((onCancel cfg t ws cbs n).outcome = .raised r c s) = False := by
+  simp only [onCancel]; split <;> simp
+
+@[simp] theorem onCancel_callbacks (cfg : Cfg α) (t ws cbs n) :
+    (onCancel cfg t ws cbs n).callbacks = cbs := by
+  simp only [onCancel]; split <;> rfl
+
+@[simp] theorem onCancel_consumed (cfg : Cfg α) (t ws cbs n) :
+    (onCancel cfg t ws cbs n).consumed = n := by
+  simp only [onCancel]; split <;> rfl
+
 /-- completion time never exceeds the deadline (for every history) -/
 theorem loop_time_le_deadline (R : Int → Bool) (cfg : Cfg α) (t : Nat) (ev : List (Nat × In α))
     (ws : List Write) (cbs) (n : Nat) (ht : t ≤ cfg.D) :
     (loop R cfg t ev ws cbs n).time ≤ cfg.D := by
-  fun_induction loop R cfg t ev ws cbs n <;> simp_all [arrivesInTime] <;> try omega
-  all_goals (first | (split at * <;> omega) | (rename_i h; rcases h with h | h <;> (try split at h) <;> omega) | skip)
+  fun_induction loop R cfg t ev ws cbs n <;> simp_all [arrivesInTime, onCancel] <;> try omega
+  all_goals (first | (split <;> simp <;> omega) | (split at * <;> omega) | (rename_i h; rcases h with h | h <;> (try split at h) <;> omega) | skip)
 
 end Verif.Model.Await
 
@@ -261,6 +277,7 @@ theorem loop_timedOut_time (R : Int → Bool) (cfg : Cfg α) (t : Nat) (ev : Lis
     (ws : List Write) (cbs) (n : Nat)
     (h : (loop R cfg t ev ws cbs n).outcome = .timedOut) : (loop R cfg t ev ws cbs n).time = cfg.D := by
   fun_induction loop R cfg t ev ws cbs n <;> simp_all [errOutcome]
+  case case2 => simp only [onCancel] at h ⊢; split at h <;> simp_all
 
 /-- `CancelledError` only when the token fired, no later than the completion tick and before the deadline -/
 theorem loop_cancelled_sound (R : Int → Bool) (cfg : Cfg α) (t : Nat) (ev : List (Nat × In α))
@@ -271,36 +288,50 @@ theorem loop_cancelled_sound (R : Int → Bool) (cfg : Cfg α) (t : Nat) (ev : L
   fun_induction loop R cfg t ev ws cbs n <;> simp_all [errOutcome]
   case case2 t cbs n hD hv =>
     simp only [cancelVisible] at hv
-    split at hv <;> simp_all
+    simp only [onCancel] at h ⊢
+    split at hv <;> split at h <;> simp_all
 
-/-- the loop writes nothing but (at most) one cancelled notification, exactly when it ends cancelled -/
+/-- the loop writes nothing but (at most) one cancelled notification, exactly when it ends
+cancelled and the write stream still takes it -/
 theorem loop_writes (R : Int → Bool) (cfg : Cfg α) (t : Nat) (ev : List (Nat × In α))
     (ws : List Write) (cbs) (n : Nat) :
     (loop R cfg t ev ws cbs n).writes =
-      ws ++ (match (loop R cfg t ev ws cbs n).outcome with | .cancelled => [Write.cancelNotif] | _ => []) := by
+      ws ++ (match (loop R cfg t ev ws cbs n).outcome, cfg.writer with
+              | .cancelled, .open => [Write.cancelNotif] | _, _ => []) := by
   fun_induction loop R cfg t ev ws cbs n <;> simp_all [errOutcome]
+  case case2 => simp only [onCancel]; cases cfg.writer <;> simp
+
+/-- a blocked write stream: the call never ends cancelled (the deadline cuts the blocked write) -/
+theorem loop_blocked_not_cancelled (R : Int → Bool) (cfg : Cfg α) (t : Nat) (ev : List (Nat × In α))
+    (ws : List Write) (cbs) (n : Nat) (hw : cfg.writer = .blocked) :
+    (loop R cfg t ev ws cbs n).outcome ≠ .cancelled := by
+  fun_induction loop R cfg t ev ws cbs n <;> simp_all [errOutcome, onCancel]
 
 /-- once the token has fired, an iteration ends at once -/
 theorem loop_time_after_cancel (R : Int → Bool) (cfg : Cfg α) (t c : Nat) (ev : List (Nat × In α))
-    (ws : List Write) (cbs) (n : Nat) (hc : cfg.cancelAt = some c) (hct : c ≤ t) :
+    (ws : List Write) (cbs) (n : Nat) (hc : cfg.cancelAt = some c) (hct : c ≤ t)
+    (hw : cfg.writer ≠ .blocked) :
     (loop R cfg t ev ws cbs n).time ≤ t := by
   unfold loop
   by_cases hD : cfg.D ≤ t
   · simp [hD]
-  · simp [hD, cancelVisible, hc, hct]
+  · simp only [hD, cancelVisible, hc, hct, onCancel]
+    cases hw' : cfg.writer <;> simp_all
 
 /-- cancellation latency: with a token firing at `c`, an iteration started at `t` completes no
 later than one poll period after `max c t` -/
 theorem loop_cancel_latency (R : Int → Bool) (cfg : Cfg α) (c : Nat) (hc : cfg.cancelAt = some c)
-    (t : Nat) (ev : List (Nat × In α)) (ws : List Write) (cbs) (n : Nat) :
+    (hw : cfg.writer ≠ .blocked) (t : Nat) (ev : List (Nat × In α)) (ws : List Write) (cbs) (n : Nat) :
     (loop R cfg t ev ws cbs n).time ≤ max c t + cfg.P := by
   fun_induction loop R cfg t ev ws cbs n
   case case1 => simp; omega
-  case case2 => simp; omega
+  case case2 =>
+    simp only [onCancel]
+    cases hw' : cfg.writer <;> simp_all <;> omega
   case case3 => simp; omega
   case case4 t cbs n hD hv hDP ih =>
     by_cases h : c ≤ t + cfg.P
-    · have := loop_time_after_cancel R cfg (t + cfg.P) c [] ws cbs n hc h
+    · have := loop_time_after_cancel R cfg (t + cfg.P) c [] ws cbs n hc h hw
       omega
     · omega
   case case5 t cbs n hD hv lim a m rest hcons t' p hcl =>
@@ -325,7 +356,7 @@ theorem loop_cancel_latency (R : Int → Bool) (cfg : Cfg α) (c : Nat) (hc : cf
     have hct : t < c := by
       simp [cancelVisible, hc] at hv; omega
     by_cases h : c ≤ t'
-    · have := loop_time_after_cancel R cfg t' c rest ws (cbs ++ [args]) (n + 1) hc h
+    · have := loop_time_after_cancel R cfg t' c rest ws (cbs ++ [args]) (n + 1) hc h hw
       omega
     · omega
   case case8 t cbs n hD hv lim a m rest hcons t' hcl ih =>
@@ -338,7 +369,7 @@ theorem loop_cancel_latency (R : Int → Bool) (cfg : Cfg α) (c : Nat) (hc : cf
     have hct : t < c := by
       simp [cancelVisible, hc] at hv; omega
     by_cases h : c ≤ t'
-    · have := loop_time_after_cancel R cfg t' c rest ws cbs (n + 1) hc h
+    · have := loop_time_after_cancel R cfg t' c rest ws cbs (n + 1) hc h hw
       omega
     · omega
   case case9 => simp; omega
@@ -346,7 +377,7 @@ theorem loop_cancel_latency (R : Int → Bool) (cfg : Cfg α) (c : Nat) (hc : cf
     have hct : t < c := by
       simp [cancelVisible, hc] at hv; omega
     by_cases h : c ≤ t + cfg.P
-    · have := loop_time_after_cancel R cfg (t + cfg.P) c ((a, m) :: rest) ws cbs n hc h
+    · have := loop_time_after_cancel R cfg (t + cfg.P) c ((a, m) :: rest) ws cbs n hc h hw
       omega
     · omega
 
@@ -391,7 +422,8 @@ theorem loop_callbacks (R : Int → Bool) (cfg : Cfg α) (t : Nat) (ev : List (N
 /-- every history entry that is not consumed arrives no earlier than the completion tick: what
 arrives strictly before completion has been consumed -/
 theorem loop_unconsumed_late (R : Int → Bool) (cfg : Cfg α) (t : Nat) (ev : List (Nat × In α))
-    (ws : List Write) (cbs) (n : Nat) (hs : Sorted ev) (ht : ∀ x ∈ ev, t ≤ x.1) :
+    (ws : List Write) (cbs) (n : Nat) (hs : Sorted ev) (ht : ∀ x ∈ ev, t ≤ x.1)
+    (hw : cfg.writer ≠ .blocked) :
     ∀ x ∈ ev.drop ((loop R cfg t ev ws cbs n).consumed - n), (loop R cfg t ev ws cbs n).time ≤ x.1 := by
   fun_induction loop R cfg t ev ws cbs n
   case case1 t ev cbs n hD =>
@@ -399,7 +431,10 @@ theorem loop_unconsumed_late (R : Int → Bool) (cfg : Cfg α) (t : Nat) (ev : L
     simp at hx
     have := ht x hx
     simp; omega
-  case case2 => simpa using ht
+  case case2 =>
+    simp only [onCancel_consumed, Nat.sub_self, List.drop_zero]
+    simp only [onCancel]
+    cases hw' : cfg.writer <;> simp_all <;> exact ht
   case case3 => simp
   case case4 ih => simp
   case case5 t cbs n hD hv lim a m rest hcons t' p hcl =>
@@ -468,7 +503,7 @@ theorem loop_cb_irrelevant (R : Int → Bool) (cfg : Cfg α) (f : Nat → Bool) 
   intro t ev ws cbs n
   fun_induction loop R cfg t ev ws cbs n
   all_goals (conv => lhs; unfold loop)
-  all_goals simp_all [cancelVisible, arrivesInTime, classify_cb]
+  all_goals simp_all [cancelVisible, arrivesInTime, classify_cb, onCancel]
   all_goals (try grind)
 
 end Verif.Model.Await
